@@ -1,5 +1,6 @@
 import MpVerif.C01.ModelProp
 import MpVerif.C01.ModelGadgets
+import MpVerif.C01.ModelGadgets2
 import MpVerif.Gen.C01Decisions
 import MpVerif.Gen.C01Context
 import MpVerif.Gen.C01PropDown
@@ -225,5 +226,71 @@ theorem C01_gen_dispatch_pos (ctx : Ctx) (logical : Bool) (rv : VarInfo) :
 /-- the negative part is converted first (auxiliary variables of the positive part are numbered after it), as `dispatch` does -/
 theorem C01_gen_dispatch_order : C01Decisions.negFirst = true := by rfl
 
+
+/-! ## (v) the driver's unary-encoding front end emits exactly the rows of `gUnaryEnc` (the function the gadget theorems are about) -/
+
+theorem C01_tie_unaryenc_rows (v : Var) (B : Bnds) (taken : List (Int × Var)) (n : Nat) (l u : Rat)
+    (hi : (B v).isInt = true) (hl : (B v).lb = some l) (hu : (B v).ub = some u) (hdl : l.den = 1) (hdu : u.den = 1) :
+    (gUnaryEncFull v B taken n).cons
+      = (gUnaryEnc v l.num (uencFlags taken l.num (u.num - l.num + 1).toNat n).1).cons := by
+  simp [gUnaryEncFull, hi, hl, hu, hdl, hdu]
+
+/-- every flag is either a comparison result from `taken` or a fresh variable `≥ n`, one per value -/
+theorem C01_tie_unaryenc_flags_length (taken : List (Int × Var)) (k : Int) (len n : Nat) :
+    (uencFlags taken k len n).1.length = len := by
+  induction len generalizing k n with
+  | zero => rfl
+  | succ m ih =>
+    simp only [uencFlags]
+    split <;> simp [ih]
+
+/-! ## (vi) `LinTerms::sort_terms`: the canonicalisation applied to every stored algebraic row preserves its value,
+hence the truth of the row — the driver prints `Con.stored`, the gadget theorems speak about the rows before it -/
+
+theorem evalLin_insertTerm (x : Asg) (c : Rat) (v : Var) (l : Lin) :
+    evalLin x (insertTerm c v l) = c * x v + evalLin x l := by
+  induction l with
+  | nil => rfl
+  | cons p t ih =>
+    obtain ⟨c', v'⟩ := p
+    simp only [insertTerm]
+    split
+    · simp [evalLin]
+    · split
+      · rename_i _ h; subst h; simp only [evalLin]; grind
+      · simp only [evalLin, ih]; grind
+
+theorem evalLin_mergeTerms (x : Asg) (l : Lin) : evalLin x (mergeTerms l) = evalLin x l := by
+  induction l with
+  | nil => rfl
+  | cons p t ih =>
+    obtain ⟨c, v⟩ := p
+    have hm : mergeTerms ((c, v) :: t) = if (c == 0) = true then mergeTerms t else insertTerm c v (mergeTerms t) := rfl
+    rw [hm]
+    by_cases h : c = 0
+    · subst h; simp [evalLin, ih]; grind
+    · have : (c == 0) = false := by simp [h]
+      simp only [this, Bool.false_eq_true, if_false, evalLin_insertTerm, ih, evalLin]
+
+theorem evalLin_filter_nonzero (x : Asg) (l : Lin) : evalLin x (l.filter (fun p => p.1 != 0)) = evalLin x l := by
+  induction l with
+  | nil => rfl
+  | cons p t ih =>
+    obtain ⟨c, v⟩ := p
+    by_cases h : c = 0
+    · subst h; simp [List.filter, evalLin, ih]; grind
+    · have : (c != 0) = true := by simp [h]
+      simp [List.filter, this, evalLin, ih]
+
+/-- `sort_terms` does not change the value of the body -/
+theorem C01_sort_terms_value (x : Asg) (l : Lin) : evalLin x (sortTerms l) = evalLin x l := by
+  unfold sortTerms
+  split
+  · rw [evalLin_filter_nonzero, evalLin_mergeTerms]
+  · rfl
+
+/-- … hence a stored row holds iff the row as emitted by the gadget holds -/
+theorem C01_stored_sat (x : Asg) (c : Con) : c.stored.sat x ↔ c.sat x := by
+  cases c <;> simp [Con.stored, Con.sat, C01_sort_terms_value]
 
 end MpVerif.C01
